@@ -1,0 +1,16 @@
+//go:build verif
+
+package edit
+
+import "src.elv.sh/pkg/cli/tk"
+
+// VerifBufferBuiltins exposes bufferBuiltinsData (name → function on the code
+// buffer) to the verification harness. Only compiled with the "verif" build
+// tag.
+func VerifBufferBuiltins() map[string]func(*tk.CodeBuffer) {
+	m := make(map[string]func(*tk.CodeBuffer), len(bufferBuiltinsData))
+	for name, fn := range bufferBuiltinsData {
+		m[name] = fn
+	}
+	return m
+}
